@@ -105,6 +105,11 @@ static mut SHARED: *mut Shared = std::ptr::null_mut();
 
 pub fn shared() -> &'static mut Shared {
     unsafe {
+        #[cfg(miri)]
+        if SHARED.is_null() {
+            let layout = std::alloc::Layout::new::<Shared>();
+            SHARED = std::alloc::alloc_zeroed(layout) as *mut Shared;
+        }
         if SHARED.is_null() {
             let len = std::mem::size_of::<Shared>();
             let p = libc::mmap(
